@@ -332,7 +332,7 @@ open Graphiq.MixDM
 
 /-- **per-branch measurement = joint measurement when the branches agree.**  Circuits of one-qubit gates, CNOT / CZ with any
     additive noise (depolarizing probabilities and loss rates in `[0,1]`, Pauli errors, either placement) and noiseless
-    `MeasurementZ` / `ClassicalCNOT` / `ClassicalCZ`, on existing qubits.  If the stabilizer compile returns with the analysis
+    `MeasurementZ` / `ClassicalCNOT` / `ClassicalCZ` / `MeasurementCNOTandReset` (two distinct qubits), on existing qubits.  If the stabilizer compile returns with the analysis
     flag `nonUniform` off — at every executed measurement all branches agreed on "random?" and on the outcome — and with total
     weight above `2·10⁻⁸` (twice the `np.isclose` tolerance of `apply_measurement`; the weight never grows), and the
     density-matrix compile returns, then the density matrix is `Σ_k w_k ρ(T_k)` of the mixture, entry by entry.  Every number
@@ -359,26 +359,39 @@ theorem uniform_deterministic_measurement (n q : Nat) (hq : q < n) (det o : Bool
     (mixRho n m * projZ n q o).trace = ((Mix.total m : ℚ) : ℂ) :=
   ⟨(measure_det n q hq det o m hg hu).1, (measure_det n q hq det o m hg hu).2.1, (measure_det n q hq det o m hg hu).2.2.1⟩
 
-/-- non-vacuity: the noisy two-qubit circuit of `exCircuit` (depolarizing, Pauli error, photon loss), then `MeasurementZ` of
-    the emitter and a `ClassicalCNOT` onto the photon -/
+/-- the reset half of `MeasurementCNOTandReset`, Hilbert-space level: on a mixture whose branches are all fixed by `Π_o` (what a
+    uniform measurement with outcome `o` leaves) `reset_z(q, 0)` on every branch is `X_q R X_q` if `o = 1` and `R` if `o = 0` —
+    and so is the Kraus pair `|0⟩⟨0|_q, |0⟩⟨1|_q` the density-matrix backend applies.  That the second measurement inside
+    `reset_z` is deterministic with the same outcome follows from the fixed-point property (`det_of_fixed`). -/
+theorem reset_on_fixed_mixture (n q : Nat) (hq : q < n) (det o : Bool) (m : Mixture) (hg : MixGood n m) (hf : Fixed n q o m) :
+    mixRho n (Mix.mapTab (fun t => t.resetZ q false det) m) = resetH n q (mixRho n m) := by
+  rw [mixRho_reset n q hq det o m hg hf, resetH_of_fixed n q hq o _ (fixed_mixRho n q o m hf)]
+
+/-- non-vacuity: the noisy two-qubit circuit of `exCircuit` (depolarizing, Pauli error, photon loss), then
+    `MeasurementCNOTandReset`, a noisy Hadamard, `MeasurementZ` of the emitter and a `ClassicalCNOT` onto the photon -/
 def exMeasCircuit : List COp :=
-  exCircuit ++ [ { kind := .measZ, r1 := 0, t1 := .e, c := 0 },
+  exCircuit ++ [ { kind := .mcr, r1 := 0, t1 := .e, r2 := 0, t2 := .p, c := 0 },
+                 { kind := .h, r1 := 0, t1 := .e, n0 := .depol (1/2) false },
+                 { kind := .measZ, r1 := 0, t1 := .e, c := 0 },
                  { kind := .ccnot, r1 := 0, t1 := .e, r2 := 0, t2 := .p, c := 0 } ]
 
 example : ∀ op ∈ exMeasCircuit, OpOK2 (1 + 1) 1 op := by
   intro op h
   simp only [exMeasCircuit, exCircuit, List.cons_append, List.nil_append, List.mem_cons, List.not_mem_nil, or_false] at h
-  rcases h with rfl | rfl | rfl | rfl
+  rcases h with rfl | rfl | rfl | rfl | rfl | rfl
   · exact .unitary ⟨⟨by decide, fun h => by simp [Kind.isCtrlPair, Kind.isClassicalCtrl] at h,
       fun h => by simp [Kind.isCtrlPair] at h⟩, Or.inl rfl, ⟨by norm_num, by norm_num⟩, trivial⟩ trivial trivial
   · exact .unitary ⟨⟨by decide, fun _ => by decide, fun _ => by decide⟩, Or.inr rfl, trivial, trivial⟩ trivial
       (by show (0 : Rat) ≤ 1/4 ∧ (1/4 : Rat) ≤ 1; constructor <;> norm_num)
-  · exact .meas (Or.inl rfl) ⟨by decide, fun h => by simp [Kind.isCtrlPair, Kind.isClassicalCtrl] at h,
+  · exact .meas (Or.inr ⟨rfl, by decide⟩) ⟨by decide, fun _ => by decide, fun h => by simp [Kind.isCtrlPair] at h⟩ rfl rfl
+  · exact .unitary ⟨⟨by decide, fun h => by simp [Kind.isCtrlPair, Kind.isClassicalCtrl] at h,
+      fun h => by simp [Kind.isCtrlPair] at h⟩, Or.inl rfl, ⟨by norm_num, by norm_num⟩, trivial⟩ trivial trivial
+  · exact .meas (Or.inl (Or.inl rfl)) ⟨by decide, fun h => by simp [Kind.isCtrlPair, Kind.isClassicalCtrl] at h,
       fun h => by simp [Kind.isCtrlPair] at h⟩ rfl rfl
-  · exact .meas (Or.inr (Or.inl rfl)) ⟨by decide, fun _ => by decide, fun h => by simp [Kind.isCtrlPair] at h⟩ rfl rfl
+  · exact .meas (Or.inl (Or.inr (Or.inl rfl))) ⟨by decide, fun _ => by decide, fun h => by simp [Kind.isCtrlPair] at h⟩ rfl rfl
 
-/-- on it both compilers return, the flag is off, the weight is `3/4` (the measurement happens after a photon loss), and — as the
-    theorem says — the matrices agree -/
+/-- on it both compilers return (six branches), the flag is off, the weight is `3/4` (the measurements happen after a photon
+    loss), and — as the theorem says — the matrices agree -/
 example :
     (match compileDM true 1 1 1 true exMeasCircuit, compileStab true 1 1 1 true exMeasCircuit with
       | .ok { ρ := some ρ, .. }, .ok s =>
